@@ -330,9 +330,12 @@ impl<'a> GeneratorState<'a> {
             ExprType::Immediate(l) => {
                 match right {
                     ExprType::Immediate(r) => {
+                        if !(0..32).contains(r) {
+                            return Err(self.compiler_state.syntax_error("Shift count out of range", pos));
+                        }
                         match op {
                             Operation::Brs(_) => return Ok(ExprType::Immediate(l >> r)),
-                            Operation::Bls(_) => return Ok(ExprType::Immediate(l << r)),
+                            Operation::Bls(_) => return Ok(ExprType::Immediate(l.wrapping_shl(*r as u32))),
                             _ => unreachable!(),
                         } 
                     },
